@@ -1097,7 +1097,7 @@ func TestC18(t *testing.T) {
 	rec := ev.New("C18", "exploration", "accrual: around every base point (principal, rate, elapsed seconds[, index]) the real function is evaluated on the related inputs of each law "+
 		"(t=0; t,t'>t; P,P'>P; r,r'>r; t1,t2 vs t1+t2 with the returned index chained; independent 320-bit reference): first the full grid of named boundary principals x rates x times with adjacent partners, "+
 		"then seeded random base points with far partners. rate curves: per admissible parameter set, utilisation walked upwards through U=0, the kink and its two 1e-18 neighbours, U=1, "+
-		"coarse fractions and random grid points, driven through pool balance and borrowed totals. in situ: twin vaults / twin borrow positions / twin lend positions, interest calculated split vs merged through CalculateVaultInterest, MsgCalculateBorrowInterest, MsgCalculateLendRewards. "+
+		"coarse fractions and random grid points, driven through pool balance and borrowed totals. in situ: twin vaults / twin borrow positions / twin lend positions, interest calculated split vs merged through CalculateVaultInterest, MsgCalculateBorrowInterest, MsgCalculateLendRewards; locker savings credited by real locker messages in the CDP workload against the 320-bit accrual of the balance held before the message. "+
 		"distinct = (function, bit length of principal, decimal magnitude of rate, bit length of seconds, index==1) for accrual, sign/ordering pattern of the parameters for curves")
 	defer finish(t, rec)
 	c := sim.New(sim.Options{Balances: sdk.NewCoins(sdk.NewCoin("uc18", sdk.NewIntFromUint64(8_000_000_000_000_000_000)), sdk.NewCoin("ucc18", sdk.NewIntFromUint64(8_000_000_000_000_000_000)))})
@@ -1126,6 +1126,8 @@ func TestC18(t *testing.T) {
 			}
 		}
 	}
+	// savings on lockers through the real message handlers
+	c18Lockers(t, rec)
 	// 2. seeded random base points
 	nRandom := ev.Pick(60000, 700000)
 	for i := 0; i < nRandom; i++ {
